@@ -485,7 +485,10 @@ public:
                       J.attribute("var", AD->getVarDecl()->getNameAsString());
                       J.attribute("did", (int64_t)did(AD->getVarDecl()));
                     } else if (E.getAs<CFGTemporaryDtor>()) kind = "tempdtor";
-                    else if (E.getAs<CFGMemberDtor>()) kind = "memberdtor";
+                    else if (auto MD = E.getAs<CFGMemberDtor>()) {
+                      kind = "memberdtor";
+                      if (MD->getFieldDecl()) J.attribute("field", MD->getFieldDecl()->getNameAsString());
+                    }
                     else if (E.getAs<CFGBaseDtor>()) kind = "basedtor";
                     else if (E.getAs<CFGDeleteDtor>()) kind = "deletedtor";
                     J.attribute("e", kind);
